@@ -139,7 +139,8 @@ pub fn differential(ctx: &Ctx) -> Report {
             // which parameter is out of range, and how
             let which = r.below(4);
             let (raw, bound): (f32, f32) = if which == 3 {
-                let x = match r.below(6) {
+                let x = match r.below(7) {
+                    6 => f32::NAN,
                     0 => -(r.unit() as f32) - 1e-6,
                     1 => 1.0 + r.unit() as f32 + 1e-6,
                     2 => *r.pick(&[f32::NEG_INFINITY, -1e30, -1e-45, -f32::MIN_POSITIVE]),
@@ -147,9 +148,11 @@ pub fn differential(ctx: &Ctx) -> Report {
                     4 => -r.finite_f32().abs(),
                     _ => 1.0 + r.finite_f32().abs(),
                 };
-                (x, if x < 0.0 { 0.0 } else { 1.0 })
+                // NaN must become a bound: the one the conversion itself reports
+                (x, if x.is_nan() { adsr::clamp_level(x) } else if x < 0.0 { 0.0 } else { 1.0 })
             } else {
-                let x = match r.below(6) {
+                let x = match r.below(7) {
+                    6 => f32::NAN,
                     0 => (r.unit() * 0.000_999) as f32,
                     1 => 20.0 + (r.unit() * 1e3) as f32 + 1e-5,
                     2 => *r.pick(&[0.0f32, -0.0, -1.0, f32::NEG_INFINITY, 1e-45, 0.000_999_9, -1e30]),
@@ -157,9 +160,9 @@ pub fn differential(ctx: &Ctx) -> Report {
                     4 => -r.finite_f32().abs(),
                     _ => 20.0 + r.finite_f32().abs().max(1e-5),
                 };
-                (x, if x < T_MIN { T_MIN } else { T_MAX })
+                (x, if x.is_nan() { adsr::clamp_time(x) } else if x < T_MIN { T_MIN } else { T_MAX })
             };
-            if (which == 3 && (0.0..=1.0).contains(&raw)) || (which != 3 && (T_MIN..=T_MAX).contains(&raw)) {
+            if (which == 3 && (0.0..=1.0).contains(&raw)) || (which != 3 && (T_MIN..=T_MAX).contains(&raw)) || bound.is_nan() {
                 continue;
             }
             let max_ticks = if ctx.tier == Tier::Small { 20.0 } else { 300.0 };
